@@ -78,9 +78,9 @@ class PersistScenario(StateScenario):
         w = {"set": 5, "assign_sub": 1.5, "load_tree": 1, "lop": 2.5, "dop": 1.5, "dyn": 0.5, "reset": 0.5,
              "save": 3, "restart_load": 2.5, "tree_check": 1}
         if self.prop == "C03":
-            w.update({"set_keyfile": 2, "save": 4, "restart_load": 3})
+            w.update({"set_keyfile": 2, "save": 4, "restart_load": 3, "adopt": 1.5})
         if self.prop == "C10":
-            w.update({"mask": 6, "save": 0.5, "restart_load": 0.5, "tree_check": 0})
+            w.update({"mask": 6, "save": 0.5, "restart_load": 0.5, "tree_check": 0, "evolve": 0.6})
         return w
 
     def header(self, seed, avoid):
@@ -103,7 +103,8 @@ class PersistScenario(StateScenario):
         st = St()
         st.world = world
         st.h = header
-        st.sd = header["sd"]
+        import copy
+        st.sd = copy.deepcopy(header["sd"])
         values.seed_world(world)
         st.ctx = values.Ctx(world, plain=True)
         for k, present in header["existing_keys"].items():
@@ -126,7 +127,15 @@ class PersistScenario(StateScenario):
         if st.h.get("root_key"):
             kw["key_filename"] = st.h["root_key"]
         st.cfgs = [st.B.root(**kw)]
+        st.other = None
         st.session += 1
+
+    def other_tree(self, st):
+        """A second configuration of the same schema with another root key file (a different application
+        instance, a template): sub-configurations taken from it are assigned into the main tree."""
+        if st.other is None:
+            st.other = st.B.root(key_filename=KEYFILES[1])
+        return st.other
 
     def _want(self, st, rng):
         return "valid"
@@ -268,6 +277,13 @@ class PersistScenario(StateScenario):
     def gen_tree_check(self, st, rng, cfg, tgts, cfgpaths, owners):
         return {"op": "tree_check", "virtual": rng.random() < 0.4}
 
+    def gen_adopt(self, st, rng, cfg, tgts, cfgpaths, owners):
+        subs = [p for p, c in cfgpaths if "[" not in p]
+        if not subs:
+            return None
+        secrets = ["s3cr3t!#1", "hunter2!!", "tok!en~value"]
+        return {"op": "adopt", "path": rng.choice(subs), "secret": rng.choice(secrets)}
+
     def gen_set_keyfile(self, st, rng, cfg, tgts, cfgpaths, owners):
         paths = [""] + [p for p, c in cfgpaths]
         return {"op": "set_keyfile", "path": rng.choice(paths), "file": rng.choice(KEYFILES + [None])}
@@ -282,7 +298,7 @@ class PersistScenario(StateScenario):
     # =========================================================================== execution
     def apply(self, st, op, rec):
         kind = op["op"]
-        if kind in ("save", "restart_load", "tree_check", "set_keyfile", "mask"):
+        if kind in ("save", "restart_load", "tree_check", "set_keyfile", "mask", "adopt", "evolve"):
             getattr(self, "do_" + kind)(st, st.cfgs[0], 0, op, rec)
             return
         super().apply(st, op, rec)
@@ -619,6 +635,79 @@ class PersistScenario(StateScenario):
         st.layout[op["path"]] = op["file"]
         rec.log("set_keyfile", op["path"], op["file"])
         rec.probe("set-keyfile:" + ("root" if not op["path"] else "sub") + (":none" if not op["file"] else ""))
+
+    def do_adopt(self, st, cfg, c, op, rec):
+        """Assign a sub-configuration object that lives in another tree (with another key file) into this one:
+        from then on it belongs here and must use this tree's key files."""
+        path = op["path"]
+        other = self.other_tree(st)
+        opath, key = ops.split_last(path)
+        try:
+            owner = ops.resolve(cfg, opath)
+            donor = ops.resolve(other, path)
+        except Exception:  # noqa: BLE001
+            rec.log("adopt", "skip")
+            return
+        if not isinstance(owner, Config) or not isinstance(donor, Config):
+            rec.log("adopt", "skip")
+            return
+        # give the donor a secret to carry, and make it encrypt once under its old tree's key (realistic: it was in use)
+        tg, _, _ = ops.targets(st.sd, other)
+        sec = [t for t in tg if t.path.startswith(path + ".") and t.node["kind"] == "secure" and "[" not in t.path]
+        for t in sec[:2]:
+            try:
+                setattr(t.owner, ops.split_last(t.path)[1], op["secret"])
+            except Exception:  # noqa: BLE001
+                pass
+        self._call(lambda: other.dumps("json"))
+        _, err = self._call(lambda: setattr(owner, key, donor))
+        rec.log("adopt", path, type(err).__name__ if err else "ok")
+        rec.kind("ok" if err is None else "rej")
+        st.other = None      # the donor tree gave a part away: a fresh one is built when needed again
+        if err is None:
+            rec.probe("sub-configuration-adopted-from-other-tree" + (":with-secret" if sec else ""))
+
+    def gen_evolve(self, st, rng, cfg, tgts, cfgpaths, owners):
+        """The application adds a field to a schema that is already in use (plug-ins do this): here a sensitive
+        string with a distinctive default, added with item syntax at the root or in a nested schema."""
+        if st.h.get("evolved", 0) >= 2:
+            return None
+        nested = [p for p, f in schema.iter_cfg_paths(st.sd) if f["kind"] == "schema" and "ref" not in f]
+        where = rng.choice([""] + nested) if nested else ""
+        n = sum(1 for o in getattr(st, "evolutions", []))
+        return {"op": "evolve", "where": where, "key": "late%d" % n, "sensitive": rng.random() < 0.8,
+                "how": rng.choice(["item", "attr"])}
+
+    def do_evolve(self, st, cfg, c, op, rec):
+        import cincoconfig as cc
+        where, key = op["where"], op["key"]
+        node = st.sd["root"] if not where else schema.node_at(st.sd, where)
+        if node is None or node.get("kind") != "schema" or any(f["key"] == key for f in node["fields"]):
+            rec.log("evolve", "skip")
+            return
+        leaf = {"kind": "string", "key": key, "o": {"default": "late!%s!secret#" % key}}
+        if op.get("sensitive"):
+            leaf["o"]["sensitive"] = True
+        # the real schema object of this session
+        real = st.B.root if not where else st.B.fields.get(where)
+        if real is None:
+            rec.log("evolve", "skip")
+            return
+        fld = cc.StringField(default=leaf["o"]["default"], sensitive=bool(op.get("sensitive")))
+        if op.get("how") == "item":
+            real[key] = fld
+        else:
+            setattr(real, key, fld)
+        tag = (where + "." if where else "") + key
+        st.B.fields[tag] = fld
+        node["fields"].append(leaf)
+        st.evolutions = getattr(st, "evolutions", []) + [op]
+        # existing configurations do not have the new field's default yet; a configuration built from now on does
+        st.keyset = {}
+        kw = {"key_filename": st.h["root_key"]} if st.h.get("root_key") else {}
+        st.cfgs = [st.B.root(**kw)]
+        rec.log("evolve", where, key, op.get("how"))
+        rec.probe("schema-evolved:" + ("nested" if where else "root"))
 
     # ---- C10
     def do_mask(self, st, cfg, c, op, rec):
